@@ -14,7 +14,7 @@ impl Typescript {
             Ok(typealias_template(
                 &format_comments(&tld.comments),
                 &to_jer_identifier(&tld.name),
-                &to_jer_identifier(&dec.identifier),
+                &to_jer_qualified_identifier(dec.module.as_deref(), &dec.identifier),
             ))
         } else {
             Err(GeneratorError::new(
